@@ -120,6 +120,24 @@ theorem inlineIf_negated_cond (c a b : Ty) (hc : ty_is_integral c = true) :
     simp [h_is_integral, hc]; decide
 
 
+/-! ### `==` and `!=` in the observations of a partially observable game query
+
+`{ observations } control: goal` restricts the clock comparisons it may contain (`TypeChecker::checkObservationConstraints`, run by
+`visitProperty` over the whole query).  The two tests are regenerated from the source as `obsInvalid` and `obsDifference`. -/
+
+/-- FULL STRENGTH: whether `a == b` / `a != b` is rejected as an observation does not depend on the order of its operands -/
+theorem obsRejected_symm (k : BinOp) (hk : k = .EQ ∨ k = .NEQ) (a b : Ty) : obsRejected k a b = obsRejected k b a := by
+  rcases hk with rfl | rfl <;>
+    simp only [obsRejected, obsInvalid, obsDifference] <;>
+    cases h_is_clock a <;> cases h_is_clock b <;> cases h_is_integral a <;> cases h_is_integral b <;>
+    cases h_is_integer a <;> cases h_is_integer b <;> cases h_is_diff a <;> cases h_is_diff b <;> rfl
+
+/-- together with the typing rule: the verdict on `{ a == b } control: ..` is that on `{ b == a } control: ..` -/
+theorem observation_verdict_symm (k : BinOp) (hk : k = .EQ ∨ k = .NEQ) (a b : Ty) :
+    ((typeBin k a b).isNone || obsRejected k a b) = ((typeBin k b a).isNone || obsRejected k b a) := by
+  have hmem : k ∈ commutativeOps := by rcases hk with rfl | rfl <;> decide
+  rw [typeBin_symm k hmem a b, obsRejected_symm k hk a b]
+
 /-! ### reference parameters -/
 
 /-- a modifiable lvalue argument is accepted for a (const) reference parameter of non-channel type exactly when
